@@ -103,7 +103,7 @@ func loopCase(ctx context.Context, env *vlib.Env, idx int, r *vlib.Rng, rep *vli
 	}
 	// wait (generous watchdog, not a verdict) until the loop has taken the batch, then record the sentinel
 	waitFor := func(cond func() bool) bool {
-		for i := 0; i < 6000; i++ {
+		for i := 0; i < 3000; i++ { // 15 s = 1500 polling intervals
 			if cond() {
 				return true
 			}
@@ -112,7 +112,7 @@ func loopCase(ctx context.Context, env *vlib.Env, idx int, r *vlib.Rng, rep *vli
 		return false
 	}
 	if !waitFor(func() bool { return len(node.DB.Snapshot().Rows("outgoing_eon_keys")) == 0 }) {
-		rep.Inconclusive("the polling loop did not take the pending keys within 30 s")
+		rep.Inconclusive("the polling loop did not take the pending keys within 15 s")
 		return
 	}
 	if err := q.InsertEonPublicKey(ctx, database.InsertEonPublicKeyParams{EonPublicKey: []byte("sentinel"), Eon: sentinelEon}); err != nil {
@@ -130,7 +130,7 @@ func loopCase(ctx context.Context, env *vlib.Env, idx int, r *vlib.Rng, rep *vli
 		return false
 	}
 	if !waitFor(sentinelSeen) {
-		rep.Inconclusive("the sentinel key was not published within 30 s")
+		rep.Inconclusive("the sentinel key was not published within 15 s")
 		return
 	}
 	var got []pub
@@ -315,7 +315,7 @@ func runCase(env *vlib.Env, idx int, rep *vlib.Reporter) {
 	}
 	q := database.New(node.Pool)
 	var want []pub
-	if idx%120 == 3 {
+	if idx%125 == 3 { // 125 is coprime to the worker count: the slow loop cases spread over all workers
 		loopCase(ctx, env, idx, r, rep, node, kp, q, h, broadcast, rec, &cbGot, &cbDelay, me)
 		return
 	}
